@@ -27,7 +27,7 @@ RMAX = 1000
 STRICT = KIND == "c19"      # indices outside [0, n) are the subject: the HUGR array ops' own behaviour is interpreted, panics compare by kind
 if KIND in ("c07", "c19"):
     from lib import e7_corpus
-    ALL = e7_corpus.corpus(KIND, REGION)
+    ALL = e7_corpus.corpus(KIND, REGION, N if KIND == "c07" else 0, SEED)
     EXTRA, MODEXTRA = e7_corpus.native_env(STRICT), e7_corpus.MODULE_EXTRA
 elif KIND == "c32":
     from lib import e4_syntax
